@@ -105,6 +105,22 @@ def deps(cx, fnp, mod, mode, depth=0, _memo=None):
             c = f.callee(t) or ""
             if c.startswith(mod) and c != fnp and c in fx.lib["fns"] and (t["dest"]["l"] in R or bb in RB):
                 out |= deps(cx, c, mod, "ret", depth + 1, _memo)
+                # a helper that reads the parameter named by one of its arguments (`explicit_or_element(&params, "x",
+                # ..)`): the key is the literal at the call site
+                g = fx.fn(c)
+                keyed = set()
+                for b2, t2 in g.calls():
+                    cal2 = g.callee(t2) or ""
+                    if cal2.startswith(K.PP + "::"):
+                        a2 = g.arg_terms(b2)
+                        if len(a2) > 1 and mir.strip_refs(a2[1])[0] == "arg":
+                            keyed.add(mir.strip_refs(a2[1])[1])
+                args_here = f.arg_terms(bb)
+                for j in keyed:
+                    if j - 1 < len(args_here):
+                        k = K._const_key(args_here[j - 1])
+                        if k:
+                            out.add(k)
     _memo[(fnp, mode)] = out
     return out
 
